@@ -270,6 +270,8 @@ inductive RtEv where
   | loc (t : Nat)      -- the future being polled wakes task t (`Local::schedule`)
   | ready              -- the task being polled completes
   | push               -- the future being polled submits an operation (`Driver::push` → `push_raw`)
+  | pushNoMore         -- the same, the queue is full and the NOTIFY completion reaped on the overflow path comes
+                       -- without `IORING_CQE_F_MORE`: the kernel has terminated the multishot poll (CQ was full / error)
   | noMore             -- the NOTIFY completion comes without `IORING_CQE_F_MORE`
   | timeout            -- the kernel wait returns because of its timeout (timers) / a spurious return
   deriving DecidableEq, Repr
@@ -296,6 +298,13 @@ def rtStep (s : State) (e : RtEv) : Option State :=
     match s.cfg.drv with
     | .poll => some s
     | .iour => if s.sq < s.cfg.sqcap then some { s with sq := s.sq + 1 } else some (overflowPush s)
+  | .poll _, .pushNoMore =>
+    match s.cfg.drv with
+    | .poll => none
+    | .iour =>
+      if s.sq < s.cfg.sqcap then none
+      else if s.cq || (submits s && decide (s.efd > 0)) then some { (overflowPush s) with arm := .needPush }
+      else none
   | .drainCheck r, .go =>
     if s.pending = 0 then some (drainDone s r) else some { s with rt := .draining r 0 }
   | .draining r d, .go =>
